@@ -677,6 +677,9 @@ class Stats:
                     nonlinear_products=self.nonlinear, wall_s=round(self.wall_s, 3))
 
 
+PATH_RESET = None     # set by env.load_repo: restores the repository's process-wide state to its import-time content (M12)
+
+
 def explore(fn, on_path=None, max_paths=20000, wall=None, timeout_ms=20000):
     """Run fn(ctx) once per feasible path.
 
@@ -694,6 +697,8 @@ def explore(fn, on_path=None, max_paths=20000, wall=None, timeout_ms=20000):
         prefix = work.pop()
         ctx = Ctx(prefix, timeout_ms)
         Ctx.cur = ctx
+        if PATH_RESET is not None:
+            PATH_RESET()
         try:
             try:
                 res = fn(ctx)
